@@ -91,8 +91,24 @@ static void runInContext(dispenso::ThreadPool& pool, const Spec& s, long& inflig
   if (s.ctx == 0) {
     doit();
   } else if (s.ctx == 1) {
+    // Run the call on a pool worker. Which worker (i.e. which ring index the caller has) matters
+    // to static chunking, and an idle pool tends to hand a single task to worker 0, so one task per
+    // worker is queued and the one that arrives `chosen`-th makes the call.
     dispenso::TaskSet outer(pool);
-    outer.schedule(doit, dispenso::ForceQueuingTag());
+    const int nTasks = std::max(1, s.pool);
+    const int chosen = static_cast<int>((static_cast<unsigned long long>(s.start < 0 ? -s.start : s.start) + static_cast<unsigned long long>(s.end - s.start)) % static_cast<unsigned>(nTasks));
+    std::atomic<int> arrive{0};
+    for (int t = 0; t < nTasks; ++t) {
+      outer.schedule(
+          [&]() {
+            if (arrive.fetch_add(1, std::memory_order_relaxed) == chosen) {
+              doit();
+            } else {
+              vrt::spinFor(20);
+            }
+          },
+          dispenso::ForceQueuingTag());
+    }
     outer.wait();
   } else {
     dispenso::TaskSet outer(pool);
